@@ -8,18 +8,6 @@
 import DiskfsModel.Proofs.FatTreeImg
 namespace Diskfs.Fat
 
-/-- what `reopen_image` needs of a call -/
-def OpOk (X : ImgParams) (g : TGeom) : TOp → Prop
-  | .mkdir _ n _ _ => NameOk X g n
-  | .create _ n _ => NameOk X g n
-  | .writeAt _ _ off data _ => off + data.length < 4294967296
-  | .truncate _ _ _ => True
-  | .rename _ _ n _ => NameOk X g n
-  | .remove _ _ _ => True
-
-instance (X : ImgParams) (g : TGeom) (op : TOp) : Decidable (OpOk X g op) := by
-  cases op <;> unfold OpOk <;> infer_instance
-
 section imgstep
 variable {eqn : Spec.Name → Spec.Name → Bool} {X : ImgParams} {g : TGeom} {fuel : Nat}
 
